@@ -95,6 +95,16 @@ func genCase(prop string) func(t *rapid.T) Case {
 			}
 			c.Ops = append(pre, c.Ops...)
 		}
+		if prop == "C08" && rapid.IntRange(0, 3).Draw(t, "prefix8") == 0 {
+			// construction: a plain reference and a ResolveWithReleased holder share a value, the
+			// value is invalidated and resolved afresh, and only then the holder's owner releases
+			// what it was given (a release of a reference the container has already dropped)
+			c.InitCtx = true
+			inv := Op{K: rapid.SampledFrom([]string{"invalidate", "setctx"}).Draw(t, "inv8"), Ctx: "new"}
+			pre := []Op{{K: "addref", Cb: "rec"}, {K: "finish", Out: "val"}, {K: "consumer", Kind: "resolverel", Rel: rapid.Bool().Draw(t, "rel8")},
+				inv, {K: "finish", Out: "val"}, {K: "crelease"}, {K: "probe"}}
+			c.Ops = append(pre, c.Ops...)
+		}
 		c.Sched = sched.GenSchedule(t, ev.Pick(150, 500))
 		return c
 	}
